@@ -69,6 +69,9 @@ static inline int id_of(void *p) {
 }
 static void log_dtor(void *p) { int id = id_of(p); if (id < 1) bad_dtor_arg++; else dtor_count[id]++; }
 static int cmp_eq(void *a, void *b) { return *(int *)a - *(int *)b; } // 0 when equal class
+// asymmetric comparator (cmp 2): called as (user data, list element) per list.h; matches the first element whose class is not below the key's
+static int cmp_ge(void *key, void *elem) { return *(int *)elem >= *(int *)key ? 0 : 1; }
+static inline bool cmp_match(int mode, int keyval, int elemval) { return mode == 1 ? keyval == elemval : mode == 2 ? elemval >= keyval : false; }
 
 struct Collect { std::vector<int> seen; int mode; int pos; };
 static int collect_cb(void *up, void *data) {
@@ -145,14 +148,14 @@ struct Runner {
             int id = seq[k];
             // first element that matches by comparator or pointer
             for (size_t i = 0; i < seq.size(); i++) {
-                if (seq[i] == id || (c.cmp && arena[seq[i]] == arena[id])) { expect_idx = (int)i; break; }
+                if (seq[i] == id || cmp_match(c.cmp, arena[id], arena[seq[i]])) { expect_idx = (int)i; break; }
             }
             return &arena[id];
         }
         int id = fresh();
         if (sel < 0 && c.cmp) {
             arena[id] = (int)((-sel) % 3);
-            for (size_t i = 0; i < seq.size(); i++) if (arena[seq[i]] == arena[id]) { expect_idx = (int)i; break; }
+            for (size_t i = 0; i < seq.size(); i++) if (cmp_match(c.cmp, arena[id], arena[seq[i]])) { expect_idx = (int)i; break; }
         } else {
             arena[id] = 1000 + id; // equal to nothing
         }
@@ -250,7 +253,7 @@ struct Runner {
         track::st().error.clear();
         if (c.kind == KQ) q = m_queue_new(c.dtor ? log_dtor : nullptr);
         else if (c.kind == KS) s = m_stack_new(c.dtor ? log_dtor : nullptr);
-        else l = m_list_new(c.cmp ? cmp_eq : nullptr, c.dtor ? log_dtor : nullptr);
+        else l = m_list_new(c.cmp == 2 ? cmp_ge : c.cmp ? cmp_eq : nullptr, c.dtor ? log_dtor : nullptr);
         if (!q && !s && !l) { v.fail("C12.RET", "constructor returned NULL"); return v; }
         check_state("new");
         size_t nops = c.ops.size();
@@ -396,7 +399,7 @@ static rc::Gen<Op> gen_op(int kind) {
 
 static rc::Gen<Case> gen_case(const rt::Args &) {
     using namespace rc;
-    return gen::mapcat(gen::tuple(gen::resize(100, gen::inRange(0, 3)), gen::resize(100, gen::inRange(0, 4)), gen::resize(100, gen::inRange(0, 2))),
+    return gen::mapcat(gen::tuple(gen::resize(100, gen::inRange(0, 3)), gen::resize(100, gen::inRange(0, 4)), gen::resize(100, gen::inRange(0, 3))),
                        [](std::tuple<int, int, int> t) {
                            int kind = std::get<0>(t);
                            return gen::map(gen::container<std::vector<Op>>(gen_op(kind)), [=](std::vector<Op> ops) {
@@ -431,7 +434,7 @@ static bool exhaustive(const rt::Args &args, rt::Stats &stats, rt::Failure &fail
     if (const char *e = getenv("VERIF_C12_L")) L = atoi(e);
     // configurations: queue, stack, list without and with comparator; destructor always logging
     struct Cfg { int kind, cmp; };
-    std::vector<Cfg> cfgs = {{KQ, 0}, {KS, 0}, {KL, 0}, {KL, 1}};
+    std::vector<Cfg> cfgs = {{KQ, 0}, {KS, 0}, {KL, 0}, {KL, 1}, {KL, 2}};
     uint64_t total = 0;
     for (auto cfg : cfgs) {
         auto al = alphabet(cfg.kind, cfg.cmp);
@@ -481,7 +484,7 @@ int main(int argc, char **argv) {
 #include <fuzzer/FuzzedDataProvider.h>
 extern "C" int LLVMFuzzerTestOneInput(const uint8_t *data, size_t size) {
     FuzzedDataProvider fdp(data, size);
-    Case c; c.kind = fdp.ConsumeIntegralInRange<int>(0, 2); c.dtor = fdp.ConsumeBool(); c.cmp = fdp.ConsumeBool();
+    Case c; c.kind = fdp.ConsumeIntegralInRange<int>(0, 2); c.dtor = fdp.ConsumeBool(); c.cmp = fdp.ConsumeIntegralInRange<int>(0, 2);
     while (fdp.remaining_bytes() > 0 && c.ops.size() < 100) {
         Op o; o.code = fdp.ConsumeIntegralInRange<int>(0, NCODES - 1);
         switch (o.code) {
